@@ -276,6 +276,10 @@ class DictList(list):
         other : iterable
             other must contain only unique id's present in the list
         """
+        other = list(other)
+        # make sure every removal will succeed before removing anything
+        if len({self.index(item) for item in other}) != len(other):
+            raise ValueError("an item to remove is present twice")
         for item in other:
             self.remove(item)
         return self
@@ -487,21 +491,27 @@ class DictList(list):
         if isinstance(i, slice):
             # In this case, y needs to be a list. We will ensure all
             # the id's are unique
+            new_ids = set()
             for obj in y:  # need to be setting to a list
                 self._check(obj.id)
-                # Insert a temporary placeholder so we catch the presence
-                # of a duplicate in the items being added
-                self._dict[obj.id] = None
+                # also catch the presence of a duplicate in the items
+                # being added
+                if obj.id in new_ids:
+                    raise ValueError(f"id {str(obj.id)} is present twice in list")
+                new_ids.add(obj.id)
             list.__setitem__(self, i, y)
             self._generate_index()
             return
         if -len(self) <= i < 0:
             i += len(self)
+        old_id = self[i].id
         # in case a rename has occurred
-        if self._dict.get(self[i].id) == i:
-            self._dict.pop(self[i].id)
+        replaces_entry = self._dict.get(old_id) == i
         the_id = y.id
-        self._check(the_id)
+        if not (replaces_entry and the_id == old_id):
+            self._check(the_id)
+        if replaces_entry:
+            self._dict.pop(old_id)
         list.__setitem__(self, i, y)
         self._dict[the_id] = i
 
